@@ -10,6 +10,7 @@ import KitProofs.Lemmas.EncHeader
 import KitProofs.Lemmas.EncDecrypt
 import KitProofs.Lemmas.EncToy
 import KitProofs.Lemmas.EncRealLaws
+import KitProofs.Lemmas.EncCodecLaws
 
 namespace Kit.Enc.C01
 open Kit Kit.Enc
@@ -204,6 +205,57 @@ theorem decrypt_encrypt_real_crypto (cd : Codec)
     decryptImpl Real.realCrypto cd EncParams.generated o r = (p, .ok) :=
   decrypt_encrypt Real.realCrypto cd EncParams.generated generated_wf fk hfk m lcd
     (Real.realCrypto_lawful fk m.np) hm p o hkn hunwrap hhdr hcount r heof hstream
+
+/-- **Round trip for the concrete Lean implementation the driver runs** — Lean AES-GCM /
+    ChaCha20-Poly1305 / HKDF / HMAC (`Real.realCrypto`) and the Go-modelled base64/JSON codec
+    (`Real.realCodec`): no hypothesis about primitives or codec is left. What remains are the
+    conditions of the scheme itself: a 32-byte file key, a valid manifest (ids known, wrapped key
+    non-empty, 7-byte nonce prefix) whose key name is in the modelled subset (bytes `< 0x80`), a
+    resolvable key name, a header within the 64 KiB limit and at most `2^32` segments. For every
+    script of the document source. -/
+theorem decrypt_encrypt_real (fk : Bytes) (hfk : fk.length = 32) (m : Manifest)
+    (hm : m.valid EncParams.generated = true) (hk : ∀ b ∈ m.keyName, b.toNat < 128) (p : Bytes)
+    (o : DecryptOpts) (hkn : o.keyName ≠ [] ∨ m.keyName ≠ []) (hunwrap : ∀ kn, o.unwrap m kn = fk)
+    (hhdr : (signHeader Real.realCrypto Real.realCodec EncParams.generated fk (Real.realCodec.render m)).length ≤ 65536)
+    (hcount : (segments 65536 p).length ≤ 2 ^ 32)
+    (r : Reader) (heof : r.term = .eof)
+    (hstream : r.stream = specEncrypt Real.realCrypto Real.realCodec EncParams.generated fk m p) :
+    decryptImpl Real.realCrypto Real.realCodec EncParams.generated o r = (p, .ok) :=
+  decrypt_encrypt_real_crypto Real.realCodec fk hfk m (Codec.realCodec_lawful m hm hk) hm p o hkn hunwrap hhdr hcount r
+    heof hstream
+
+/-- The same for `Encrypt`'s own output (`encryptImpl`), for every script on both sides. -/
+theorem decrypt_encryptImpl_real (eo : EncryptOpts) (fk np wfk : Bytes) (hfk : fk.length = 32)
+    (hm : (mkManifest eo wfk np).valid EncParams.generated = true)
+    (hk : ∀ b ∈ (mkManifest eo wfk np).keyName, b.toNat < 128) (o : DecryptOpts)
+    (hkn : o.keyName ≠ [] ∨ (mkManifest eo wfk np).keyName ≠ [])
+    (hunwrap : ∀ kn, o.unwrap (mkManifest eo wfk np) kn = fk)
+    (src : Reader) (hsrc : src.term = .eof)
+    (hhdr : (signHeader Real.realCrypto Real.realCodec EncParams.generated fk
+      (Real.realCodec.render (mkManifest eo wfk np))).length ≤ 65536)
+    (hcount : (segments 65536 src.stream).length ≤ 2 ^ 32)
+    (r : Reader) (heof : r.term = .eof)
+    (hstream : r.stream = (encryptImpl Real.realCrypto Real.realCodec EncParams.generated eo fk np wfk src).1) :
+    decryptImpl Real.realCrypto Real.realCodec EncParams.generated o r = (src.stream, .ok) :=
+  decrypt_encryptImpl Real.realCrypto Real.realCodec EncParams.generated generated_wf (by decide) eo fk np wfk
+    (Codec.realCodec_lawful _ hm hk) (Real.realCrypto_lawful fk np) hfk hm o hkn hunwrap src hsrc hhdr hcount r heof hstream
+
+/-- The README-only decoder opens what the concrete `Encrypt` writes. -/
+theorem spec_decrypts_impl_real (eo : EncryptOpts) (fk np wfk : Bytes)
+    (hm : (mkManifest eo wfk np).valid EncParams.generated = true)
+    (hk : ∀ b ∈ (mkManifest eo wfk np).keyName, b.toNat < 128)
+    (src : Reader) (hsrc : src.term = .eof)
+    (hhdr : (signHeader Real.realCrypto Real.realCodec EncParams.generated fk
+      (Real.realCodec.render (mkManifest eo wfk np))).length ≤ 65536)
+    (hcount : (segments 65536 src.stream).length ≤ 2 ^ 32) :
+    specDecrypt Real.realCrypto Real.realCodec EncParams.generated fk
+      (encryptImpl Real.realCrypto Real.realCodec EncParams.generated eo fk np wfk src).1 = some src.stream :=
+  spec_decrypts_impl Real.realCrypto Real.realCodec EncParams.generated generated_wf eo fk np wfk
+    (Codec.realCodec_lawful _ hm hk) (Real.realCrypto_lawful fk np) hm src hsrc hhdr hcount
+
+/-- Non-vacuity: a manifest and file key satisfying the hypotheses of `decrypt_encrypt_real`. -/
+example : (⟨[107, 34, 60, 10], 1, [1, 2, 3], 2, [1, 2, 3, 4, 5, 6, 7]⟩ : Manifest).valid EncParams.generated = true ∧
+    (∀ b ∈ ([107, 34, 60, 10] : Bytes), b.toNat < 128) ∧ (List.replicate 32 (7 : UInt8)).length = 32 := by decide
 
 /-- T1: in the source the two limits coincide (both are `SegmentSize` = 64 KiB). -/
 theorem header_limit_matches :
